@@ -11,6 +11,7 @@ package roregexp
 //@   props C18
 //@   binds v pattern
 //@   calls Match
+//@   params v
 //@   maypanic
 //@   track call.*
 //@   ensures [calls-the-wrapped-function-once|C18] count(call.ANY) == 1 && called(call.Regexp.Match)
@@ -21,6 +22,7 @@ package roregexp
 //@   props C18
 //@   binds v pattern
 //@   calls MatchString
+//@   params v
 //@   maypanic
 //@   track call.*
 //@   ensures [calls-the-wrapped-function-once|C18] count(call.ANY) == 1 && called(call.Regexp.MatchString)
@@ -31,6 +33,7 @@ package roregexp
 //@   props C18
 //@   binds v pattern
 //@   calls Find
+//@   params v
 //@   maypanic
 //@   track call.*
 //@   ensures [calls-the-wrapped-function-once|C18] count(call.ANY) == 1 && called(call.Regexp.Find)
@@ -41,6 +44,7 @@ package roregexp
 //@   props C18
 //@   binds v pattern n
 //@   calls FindAll
+//@   params v
 //@   maypanic
 //@   track call.*
 //@   ensures [calls-the-wrapped-function-once|C18] count(call.ANY) == 1 && called(call.Regexp.FindAll)
@@ -51,6 +55,7 @@ package roregexp
 //@   props C18
 //@   binds v pattern n
 //@   calls FindAllString
+//@   params v
 //@   maypanic
 //@   track call.*
 //@   ensures [calls-the-wrapped-function-once|C18] count(call.ANY) == 1 && called(call.Regexp.FindAllString)
@@ -61,6 +66,7 @@ package roregexp
 //@   props C18
 //@   binds v pattern n
 //@   calls FindAllStringSubmatch
+//@   params v
 //@   maypanic
 //@   track call.*
 //@   ensures [calls-the-wrapped-function-once|C18] count(call.ANY) == 1 && called(call.Regexp.FindAllStringSubmatch)
@@ -71,6 +77,7 @@ package roregexp
 //@   props C18
 //@   binds v pattern n
 //@   calls FindAllSubmatch
+//@   params v
 //@   maypanic
 //@   track call.*
 //@   ensures [calls-the-wrapped-function-once|C18] count(call.ANY) == 1 && called(call.Regexp.FindAllSubmatch)
@@ -81,6 +88,7 @@ package roregexp
 //@   props C18
 //@   binds v pattern
 //@   calls FindString
+//@   params v
 //@   maypanic
 //@   track call.*
 //@   ensures [calls-the-wrapped-function-once|C18] count(call.ANY) == 1 && called(call.Regexp.FindString)
@@ -91,6 +99,7 @@ package roregexp
 //@   props C18
 //@   binds v pattern
 //@   calls FindStringSubmatch
+//@   params v
 //@   maypanic
 //@   track call.*
 //@   ensures [calls-the-wrapped-function-once|C18] count(call.ANY) == 1 && called(call.Regexp.FindStringSubmatch)
@@ -101,6 +110,7 @@ package roregexp
 //@   props C18
 //@   binds v pattern
 //@   calls FindSubmatch
+//@   params v
 //@   maypanic
 //@   track call.*
 //@   ensures [calls-the-wrapped-function-once|C18] count(call.ANY) == 1 && called(call.Regexp.FindSubmatch)
@@ -111,6 +121,7 @@ package roregexp
 //@   props C18
 //@   binds v pattern
 //@   calls Match
+//@   params v
 //@   maypanic
 //@   track call.*
 //@   ensures [calls-the-wrapped-function-once|C18] count(call.ANY) == 1 && called(call.Regexp.Match)
@@ -121,6 +132,7 @@ package roregexp
 //@   props C18
 //@   binds v pattern
 //@   calls MatchString
+//@   params v
 //@   maypanic
 //@   track call.*
 //@   ensures [calls-the-wrapped-function-once|C18] count(call.ANY) == 1 && called(call.Regexp.MatchString)
@@ -131,6 +143,7 @@ package roregexp
 //@   props C18
 //@   binds v pattern repl
 //@   calls ReplaceAll
+//@   params v
 //@   maypanic
 //@   track call.*
 //@   ensures [calls-the-wrapped-function-once|C18] count(call.ANY) == 1 && called(call.Regexp.ReplaceAll)
@@ -141,6 +154,7 @@ package roregexp
 //@   props C18
 //@   binds v pattern repl
 //@   calls ReplaceAllString
+//@   params v
 //@   maypanic
 //@   track call.*
 //@   ensures [calls-the-wrapped-function-once|C18] count(call.ANY) == 1 && called(call.Regexp.ReplaceAllString)
